@@ -228,6 +228,25 @@ type rawMember struct {
 	val interface{}
 }
 
+// a key with this prefix is written with \uXXXX escapes (the same JSON name, another spelling on the wire)
+const escMark = "\x00esc:"
+
+// escapedName spells a member name with JSON escapes for some of its characters: "join_authorised_via_users\u005fserver"
+// IS the member join_authorised_via_users_server for every JSON reader (seeded change C06-r8m1 looked for the raw bytes).
+func escapedName(k string, every int) []byte {
+	var sb bytes.Buffer
+	sb.WriteByte('"')
+	for i := 0; i < len(k); i++ {
+		if k[i] < 0x80 && (k[i] == '_' && i%every == 0 || i == len(k)/2 || every == 1) {
+			fmt.Fprintf(&sb, "\\u%04x", k[i])
+		} else {
+			sb.WriteByte(k[i])
+		}
+	}
+	sb.WriteByte('"')
+	return sb.Bytes()
+}
+
 // rawObject writes the members in the given order (names and values JSON-encoded, nothing sorted or merged).
 func rawObject(ms []rawMember) rawContent {
 	var sb bytes.Buffer
@@ -237,6 +256,9 @@ func rawObject(ms []rawMember) rawContent {
 			sb.WriteByte(',')
 		}
 		k, _ := json.Marshal(m.key)
+		if strings.HasPrefix(m.key, escMark) {
+			k = escapedName(strings.TrimPrefix(m.key, escMark), 1+i%3)
+		}
 		v, err := json.Marshal(m.val)
 		if err != nil {
 			v = []byte("null")
@@ -368,7 +390,14 @@ func genSignersEvent(r *Rng, ver string, variants bool) *signersCase {
 				return u
 			}
 			var extra []rawMember
-			switch r.Intn(8) {
+			switch r.Intn(10) {
+			case 8, 9: // the exact names, spelled with \uXXXX escapes on the wire: still the same members
+				for i := range ms {
+					if ms[i].key == "join_authorised_via_users_server" || (ms[i].key == "membership" && r.Chance(50)) {
+						ms[i].key = escMark + ms[i].key
+					}
+				}
+				label += "-escaped-names"
 			case 0, 1: // another membership under a variant spelling, the exact one kept
 				extra = append(extra, rawMember{Pick(r, membershipVariants), Pick(r, []string{"invite", "join", "leave", "ban"})})
 				label += "-mvariant+exact"
